@@ -1,8 +1,904 @@
-//! C14 — not built yet.
+//! C14 — YAML loading reproduces the document's value (DESIGN §4 C14).
+//!
+//! Sub-checks
+//! * `load-vs-model` — G-yaml streams (every feature group on); oracle = the model:
+//!   (a) library walk of `YamlIndex::build(text)?.root(text)`: root = sequence of
+//!   documents, mappings through `YamlFields` + `key_string`, sequences through
+//!   `YamlElements`, scalars through `YamlValue` / `YamlString::as_str` with the core-schema
+//!   typing the model expects (`resolve_plain` only for unquoted scalars; typed getters of
+//!   `DocumentValue`), aliases followed to their anchor's value;
+//!   (b) `to_json_document()`, `stream_json(COMPACT)` and each document cursor's
+//!   `to_json()` parsed with O-jsonval = the model's JSON.
+//!   `YamlIndex::build` returning `Err` on a generated stream is a violation.
+//! * `load-vs-model-plain` — the same oracle over `YOpts::plain_data()` (block / flow only)
+//!   so that the basic presentation space gets its own dense coverage.
+//! * `generator-selfcheck` — development aid, skipped unless `VH_YAML_DUMP=<dir>`: writes
+//!   `<dir>/<i>.yaml` and `<dir>/<i>.json` (typed model, `gen::yaml::to_typed_json`) for
+//!   cross-checking the *generator* with PyYAML (`tools`-free script: see
+//!   `harness/vh/src/gen/yaml_selfcheck.py`). `VH_YAML_DUMP_MODE=full` lifts the PyYAML
+//!   compatibility restriction.
 use crate::engine::*;
+use crate::gen::json::J;
+use crate::gen::yaml::{self as gy, Seg, YOpts, YRole, YStyle, Y};
+use crate::oracle::jsonval;
+use serde_json::{json, Value};
+use std::sync::atomic::{AtomicUsize, Ordering};
+use succinctly::jq::document::{DocumentValue, IndentSpec};
+use succinctly::yaml::{resolve_plain, ResolvedScalar, YamlIndex, YamlValue};
 
-pub const RULE: &str = "not built";
+pub const RULE: &str = "G-yaml streams (1-4 documents, depth <= 8 with occasional single-child spines to 40 (100 thorough), every presentation choice drawn independently per node: block/flow collections, compact `- k: v`, sequences at the parent key's indentation, indentation 1-6, plain/single/double/literal/folded scalars, chomping -/clip/+, multi-line folded flow scalars, anchors+aliases, trailing comments, comment lines, blank lines, `---`, LF/CRLF/CR, tabs as separation). Oracle: the model (library walk with core-schema typing; three JSON routes read back with O-jsonval). Non-trivial: >=2 collection styles and >=3 scalar styles and a comment; distinct by hash(text).";
+
+#[derive(Debug)]
+pub struct Mis {
+    pub kind: String,
+    pub path: String,
+    pub segs: Vec<Seg>,
+    pub doc: usize,
+    pub expected: String,
+    pub actual: String,
+    /// when the library answered with a string scalar: (unquoted?, decoded text)
+    pub actual_str: Option<(bool, String)>,
+    /// build() error, when that is the failure
+    pub err: Option<succinctly::yaml::YamlError>,
+    /// the model string, when a string was expected
+    pub expected_str: Option<String>,
+}
+
+fn mis(kind: &str, path: &[Seg], e: impl std::fmt::Debug, a: impl std::fmt::Debug) -> Mis {
+    Mis { kind: kind.to_string(), path: gy::path_str(path), segs: path.to_vec(), doc: 0, expected: trunc(format!("{:?}", e)), actual: trunc(format!("{:?}", a)), actual_str: None, err: None, expected_str: None }
+}
+
+/// mismatch whose actual answer is a library value
+fn mis_v(kind: &str, path: &[Seg], e: impl std::fmt::Debug, v: &YamlValue<'_>) -> Mis {
+    let mut m = mis(kind, path, e, describe_value(v));
+    if let YamlValue::String(s) = v {
+        if let Ok(t) = s.as_str() {
+            m.actual_str = Some((s.is_unquoted(), t.into_owned()));
+        }
+    }
+    m
+}
+
+fn trunc(s: String) -> String {
+    if s.len() > 300 {
+        let mut e = 300;
+        while !s.is_char_boundary(e) {
+            e -= 1;
+        }
+        format!("{}...", &s[..e])
+    } else {
+        s
+    }
+}
+
+fn vkind<W: AsRef<[u64]>>(v: &YamlValue<'_, W>) -> &'static str {
+    match v {
+        YamlValue::Null => "Null",
+        YamlValue::String(_) => "String",
+        YamlValue::Mapping(_) => "Mapping",
+        YamlValue::Sequence(_) => "Sequence",
+        YamlValue::Alias { .. } => "Alias",
+        YamlValue::Error(_) => "Error",
+    }
+}
+
+/// (a) the library walk. `n_alias` counts aliases followed.
+pub fn walk(v: YamlValue<'_>, y: &Y, path: &mut Vec<Seg>, n_alias: &mut u32, evals: &mut u64) -> Result<(), Mis> {
+    // aliases resolve to the anchored value
+    let mut v = v;
+    let mut hops = 0;
+    while let YamlValue::Alias { target, anchor_name } = &v {
+        *n_alias += 1;
+        hops += 1;
+        match target {
+            Some(t) if hops < 64 => v = t.value(),
+            _ => return Err(mis("alias-unresolved", path, y.kind(), anchor_name)),
+        }
+    }
+    *evals += 1;
+    match y {
+        Y::Null => {
+            let ok = match &v {
+                YamlValue::Null => true,
+                YamlValue::String(s) if s.is_unquoted() => {
+                    matches!(s.as_str(), Ok(t) if resolve_plain(&t) == ResolvedScalar::Null)
+                }
+                _ => false,
+            };
+            if !ok {
+                return Err(mis_v("null", path, "null", &v));
+            }
+            if !v.is_null() || v.type_name() != "null" {
+                return Err(mis("null-getters", path, "is_null && type_name==null", (v.is_null(), v.type_name())));
+            }
+        }
+        Y::Bool(b) => {
+            if v.as_bool() != Some(*b) || v.type_name() != "boolean" {
+                return Err(mis_v("bool", path, b, &v));
+            }
+            if v.is_null() || v.as_i64().is_some() {
+                return Err(mis("bool-getters", path, "not null, not int", describe_value(&v)));
+            }
+        }
+        Y::Int(n) => {
+            if v.as_i64() != Some(*n) || v.type_name() != "number" {
+                return Err(mis_v("int", path, n, &v));
+            }
+            if v.is_null() || v.as_bool().is_some() {
+                return Err(mis("int-getters", path, "not null, not bool", describe_value(&v)));
+            }
+        }
+        Y::Str(s) => match &v {
+            YamlValue::String(ys) => {
+                let got = ys.as_str();
+                match &got {
+                    Ok(t) if t.as_ref() == s.as_str() => {}
+                    _ => {
+                        let mut m = mis_v("str-content", path, s, &v);
+                        m.expected_str = Some(s.clone());
+                        return Err(m);
+                    }
+                }
+                if ys.is_unquoted() && resolve_plain(s) != ResolvedScalar::Str {
+                    return Err(mis("str-typed-as-other", path, "string", resolve_plain(s)));
+                }
+                if v.type_name() != "string" || v.is_null() || v.as_bool().is_some() || v.as_i64().is_some() || v.as_f64().is_some() {
+                    return Err(mis("str-getters", path, "string", (v.type_name(), v.is_null(), v.as_bool(), v.as_i64())));
+                }
+                match DocumentValue::as_str(&v) {
+                    Some(t) if t.as_ref() == s.as_str() => {}
+                    o => return Err(mis("str-as_str", path, s, o.map(|c| c.into_owned()))),
+                }
+            }
+            _ => return Err(mis_v("str", path, s, &v)),
+        },
+        Y::Seq(a) => match &v {
+            YamlValue::Sequence(el) => {
+                let mut el = *el;
+                let mut i = 0;
+                loop {
+                    match el.uncons() {
+                        Some((x, rest)) => {
+                            if i >= a.len() {
+                                return Err(mis("seq-longer", path, a.len(), describe_value(&x)));
+                            }
+                            path.push(Seg::Idx(i));
+                            walk(x, &a[i], path, n_alias, evals)?;
+                            path.pop();
+                            i += 1;
+                            el = rest;
+                        }
+                        None => break,
+                    }
+                }
+                if i != a.len() {
+                    return Err(mis("seq-shorter", path, a.len(), i));
+                }
+            }
+            _ => return Err(mis_v("seq", path, format!("sequence of {}", a.len()), &v)),
+        },
+        Y::Map(m) => match &v {
+            YamlValue::Mapping(f) => {
+                let mut f = f.clone();
+                let mut i = 0;
+                loop {
+                    match f.uncons() {
+                        Some((field, rest)) => {
+                            let k = field.key().key_string().into_owned();
+                            if i >= m.len() {
+                                return Err(mis("map-longer", path, m.len(), k));
+                            }
+                            if k != m[i].0 {
+                                return Err(mis("map-key", path, &m[i].0, k));
+                            }
+                            path.push(Seg::Key(k));
+                            walk(field.value(), &m[i].1, path, n_alias, evals)?;
+                            path.pop();
+                            i += 1;
+                            f = rest;
+                        }
+                        None => break,
+                    }
+                }
+                if i != m.len() {
+                    return Err(mis("map-shorter", path, m.len(), i));
+                }
+                // lookup by name agrees with iteration (keys are unique in the model)
+                for (k, val) in m.iter().take(4) {
+                    match f_find(&v, k) {
+                        Some(x) => {
+                            path.push(Seg::Key(k.clone()));
+                            let r = shallow_same(&x, val);
+                            path.pop();
+                            if !r {
+                                return Err(mis("map-find", path, val.kind(), describe_value(&x)));
+                            }
+                        }
+                        None => return Err(mis("map-find-none", path, k, "None")),
+                    }
+                }
+            }
+            _ => return Err(mis_v("map", path, format!("mapping of {}", m.len()), &v)),
+        },
+    }
+    Ok(())
+}
+
+fn f_find<'a>(v: &YamlValue<'a>, k: &str) -> Option<YamlValue<'a>> {
+    match v {
+        YamlValue::Mapping(f) => f.find(k),
+        _ => None,
+    }
+}
+
+/// kind-level agreement (used for `find`, whose deep value the walk already checked)
+fn shallow_same(v: &YamlValue<'_>, y: &Y) -> bool {
+    let mut v = v.clone();
+    let mut hops = 0;
+    while let YamlValue::Alias { target: Some(t), .. } = &v {
+        hops += 1;
+        if hops > 64 {
+            return false;
+        }
+        v = t.value();
+    }
+    match y {
+        Y::Null => v.is_null(),
+        Y::Bool(b) => v.as_bool() == Some(*b),
+        Y::Int(n) => v.as_i64() == Some(*n),
+        Y::Str(s) => matches!(DocumentValue::as_str(&v), Some(t) if t.as_ref() == s.as_str()) && v.type_name() == "string",
+        Y::Seq(_) => matches!(v, YamlValue::Sequence(_)),
+        Y::Map(_) => matches!(v, YamlValue::Mapping(_)),
+    }
+}
+
+fn describe_value(v: &YamlValue<'_>) -> String {
+    match v {
+        YamlValue::String(s) => format!("String(unquoted={}, {:?})", s.is_unquoted(), s.as_str().map(|c| c.into_owned()).map_err(|e| e.to_string())),
+        YamlValue::Alias { anchor_name, .. } => format!("Alias({})", anchor_name),
+        YamlValue::Error(e) => format!("Error({})", e),
+        o => vkind(o).to_string(),
+    }
+}
+
+/// Does the JSON value `j` encode the model value `y`? (ints exact, strings exact,
+/// object fields in order)
+pub fn json_matches(j: &J, y: &Y, path: &mut Vec<Seg>) -> Result<(), Mis> {
+    match (j, y) {
+        (J::Null, Y::Null) => Ok(()),
+        (J::Bool(a), Y::Bool(b)) if a == b => Ok(()),
+        (J::Num(n), Y::Int(i)) => {
+            let exact = n.int == Some(*i);
+            let small_float = n.value == *i as f64 && i.unsigned_abs() < (1u64 << 53);
+            if exact || small_float {
+                Ok(())
+            } else {
+                Err(mis("json-int", path, i, &n.text))
+            }
+        }
+        (J::Str(a), Y::Str(b)) if a == b => Ok(()),
+        (J::Arr(a), Y::Seq(b)) => {
+            if a.len() != b.len() {
+                return Err(mis("json-seq-len", path, b.len(), a.len()));
+            }
+            for (i, (x, z)) in a.iter().zip(b.iter()).enumerate() {
+                path.push(Seg::Idx(i));
+                json_matches(x, z, path)?;
+                path.pop();
+            }
+            Ok(())
+        }
+        (J::Obj(a), Y::Map(b)) => {
+            if a.len() != b.len() {
+                return Err(mis("json-map-len", path, b.iter().map(|e| &e.0).collect::<Vec<_>>(), a.iter().map(|e| &e.0).collect::<Vec<_>>()));
+            }
+            for ((k1, x), (k2, z)) in a.iter().zip(b.iter()) {
+                if k1 != k2 {
+                    return Err(mis("json-map-key", path, k2, k1));
+                }
+                path.push(Seg::Key(k2.clone()));
+                json_matches(x, z, path)?;
+                path.pop();
+            }
+            Ok(())
+        }
+        _ => Err(mis(&format!("json-{}-for-{}", j.kind(), y.kind()), path, gy::to_typed_json(y).to_string(), crate::gen::json::to_compact(j))),
+    }
+}
+
+/// Everything C14 asserts about one rendered stream. `Err((route, Mis))`.
+pub fn check_stream(stream: &[Y], text: &[u8], st: &mut Stats) -> Result<(), (String, Mis)> {
+    let index = match YamlIndex::build(text) {
+        Ok(i) => i,
+        Err(e) => {
+            let name = format!("{:?}", e);
+            let variant = name.split(|c: char| !c.is_alphanumeric()).next().unwrap_or("?").to_string();
+            let mut m = mis("build-err", &[], "Ok", e.to_string());
+            m.kind = variant;
+            m.err = Some(e);
+            return Err(("build-err".to_string(), m));
+        }
+    };
+    let root = index.root(text);
+    // (a) walk
+    let mut evals = 0u64;
+    let mut n_alias = 0u32;
+    let docs = match root.value() {
+        YamlValue::Sequence(el) => el,
+        o => return Err(("walk".into(), mis("root-not-sequence", &[], "Sequence", vkind(&o)))),
+    };
+    let mut el = docs;
+    let mut i = 0;
+    while let Some((cursor, rest)) = el.uncons_cursor() {
+        if i >= stream.len() {
+            return Err(("walk".into(), mis("doc-count", &[], stream.len(), format!("more; extra doc {}", cursor.to_json()))));
+        }
+        let mut path = vec![];
+        walk(cursor.value(), &stream[i], &mut path, &mut n_alias, &mut evals).map_err(|mut m| {
+            m.path = format!("doc{}:{}", i, m.path);
+            m.doc = i;
+            ("walk".to_string(), m)
+        })?;
+        // (b3) per-document cursor JSON
+        let js = cursor.to_json();
+        let j = jsonval::parse_one(js.as_bytes()).map_err(|e| ("doc-to_json".to_string(), mis("json-unparseable", &[], "valid JSON", format!("{:?} in {}", e, trunc(js.clone())))))?;
+        let mut path = vec![];
+        json_matches(&j, &stream[i], &mut path).map_err(|mut m| {
+            m.path = format!("doc{}:{}", i, m.path);
+            ("doc-to_json".to_string(), m)
+        })?;
+        evals += 1;
+        i += 1;
+        el = rest;
+    }
+    if i != stream.len() {
+        return Err(("walk".into(), mis("doc-count", &[], stream.len(), i)));
+    }
+    // (b1) to_json_document: single document unwrapped, several as an array
+    let js = root.to_json_document();
+    let j = jsonval::parse_one(js.as_bytes()).map_err(|e| ("to_json_document".to_string(), mis("json-unparseable", &[], "valid JSON", format!("{:?} in {}", e, trunc(js.clone())))))?;
+    let whole = Y::Seq(stream.to_vec());
+    let expect: &Y = if stream.len() == 1 { &stream[0] } else { &whole };
+    json_matches(&j, expect, &mut vec![]).map_err(|m| ("to_json_document".to_string(), m))?;
+    // (b2) stream_json of the root: always the array of documents
+    let mut out = String::new();
+    if root.stream_json(&mut out, IndentSpec::COMPACT, false).is_err() {
+        return Err(("stream_json".into(), mis("fmt-error", &[], "Ok", "Err")));
+    }
+    let j = jsonval::parse_one(out.as_bytes()).map_err(|e| ("stream_json".to_string(), mis("json-unparseable", &[], "valid JSON", format!("{:?} in {}", e, trunc(out.clone())))))?;
+    json_matches(&j, &whole, &mut vec![]).map_err(|m| ("stream_json".to_string(), m))?;
+    evals += 2;
+    st.evals(evals);
+    let _ = n_alias;
+    Ok(())
+}
+
+/// Stable, narrow failure signature: route + mismatch kind + (for known shapes) a shape tag.
+pub fn signature(route: &str, m: &Mis, text: &[u8], stream: &[Y], r: Option<&gy::RenderedYaml>) -> String {
+    let mut sig = format!("C14/{}/{}", route, m.kind);
+    let tag = shape_tag(route, m, text, stream).or_else(|| r.and_then(|r| shape_from_spans(route, m, r)));
+    if let Some(tag) = tag {
+        sig.push('/');
+        sig.push_str(tag);
+    }
+    sig
+}
+
+/// Attribution through the generator's span table (exact for generated text): the first
+/// recorded-finding shape present in the stream whose known wrong answers include this
+/// kind of failure.
+fn shape_from_spans(route: &str, m: &Mis, r: &gy::RenderedYaml) -> Option<&'static str> {
+    let root = m.segs.is_empty() || m.kind == "doc-count";
+    gy::known_shapes(r).into_iter().find(|&s| match (s, route, m.kind.as_str()) {
+        ("tab-after-closing-quote", "build-err", "TabIndentation") => true,
+        ("compact-quoted-key-then-space", "build-err", "UnexpectedCharacter") => true,
+        ("quote-inside-flow-plain", "build-err", "UnexpectedCharacter") => true,
+        // the document start is misread: whatever error follows is a consequence
+        ("root-anchor-then-comment", "build-err", _) => true,
+        ("root-block-scalar-reread", "build-err", _) => true,
+        ("literal-hash-first-then-indented", "build-err", "InconsistentIndentation") => true,
+        ("empty-value-then-col0-quoted-key", "walk", "null") => matches!(m.actual_str, Some((false, _))),
+        ("empty-node-at-eof-len64", "walk", "null") => m.actual.contains("invalid cursor position"),
+        ("nextline-plain-continuation-not-deeper", "walk", "str-content") => true,
+        ("literal-hash-first-then-indented", "walk", _) => true,
+        ("root-anchor-then-comment", "walk", _) => root,
+        ("root-block-scalar-reread", "walk", _) => root,
+        _ => false,
+    })
+}
+
+/// physical lines (LF / CRLF / CR) of a text
+pub fn lines_of(text: &[u8]) -> Vec<&[u8]> {
+    let mut v = vec![];
+    let mut s = 0;
+    let mut i = 0;
+    while i < text.len() {
+        if text[i] == b'\n' || text[i] == b'\r' {
+            v.push(&text[s..i]);
+            if text[i] == b'\r' && text.get(i + 1) == Some(&b'\n') {
+                i += 1;
+            }
+            s = i + 1;
+        }
+        i += 1;
+    }
+    if s < text.len() {
+        v.push(&text[s..]);
+    }
+    v
+}
+
+/// Trigger predicates of the recorded findings (DESIGN §2.6): a failure only gets a
+/// finding's tag when the input has the finding's shape *and* the wrong answer is the
+/// recorded one. Everything else keeps its untagged signature and is a new VIOLATION.
+fn shape_tag(route: &str, m: &Mis, text: &[u8], stream: &[Y]) -> Option<&'static str> {
+    use succinctly::yaml::YamlError;
+    if route == "build-err" {
+        // (3) `- 'k' : v`: white space between a quoted key and `:` in a compact mapping
+        if let Some(YamlError::UnexpectedCharacter { offset, context, .. }) = &m.err {
+            let o = *offset;
+            if context.contains("after key in compact mapping")
+                && matches!(text.get(o), Some(b' ' | b'\t'))
+                && o > 0
+                && matches!(text[o - 1], b'"' | b'\'')
+                && trim_ws(&text[o..]).first() == Some(&b':')
+            {
+                return Some("compact-quoted-key-then-space");
+            }
+        }
+        // (9) a quote character inside a flow-context plain scalar starts a look-ahead that
+        //     runs on to a later quote and `:`
+        if let Some(YamlError::UnexpectedCharacter { context, .. }) = &m.err {
+            let interior_quote = text.windows(2).any(|w| matches!(w[1], b'\'' | b'"') && !matches!(w[0], b' ' | b'\t' | b'\n' | b'\r' | b'[' | b'{' | b',' | b':' | b'\'' | b'"' | b'-'));
+            if context.contains("implicit flow mapping entry") && interior_quote {
+                return Some("quote-inside-flow-plain");
+            }
+        }
+        // (4) a tab directly after the closing quote of a quoted scalar reported as indentation
+        //     (the reported offset is the tab's or the byte after it)
+        if let Some(YamlError::TabIndentation { offset, .. }) = &m.err {
+            let o = *offset;
+            // the reported offset is the first byte after the white space run that holds the tab
+            let mut t = o.min(text.len());
+            while t > 0 && matches!(text[t - 1], b' ' | b'\t') {
+                t -= 1;
+            }
+            if text.get(t) == Some(&b'\t') && t > 0 {
+                // a closing quote: the line scan says so, or (scalar opened on an earlier line)
+                // the quote does not stand where a scalar can open
+                let quoted = matches!(text[t - 1], b'"' | b'\'')
+                    && (closes_quoted_scalar(text, t - 1) || (t >= 2 && !matches!(text[t - 2], b' ' | b'\t' | b'[' | b'{' | b',' | b':' | b'\n' | b'\r')));
+                let mut a = t;
+                while a > 0 && (text[a - 1].is_ascii_alphanumeric() || matches!(text[a - 1], b'_' | b'-')) {
+                    a -= 1;
+                }
+                let alias = a < t && a > 0 && text[a - 1] == b'*';
+                if quoted || alias {
+                    return Some("tab-after-closing-quote");
+                }
+            }
+        }
+        // (2b) document-level anchor followed by a comment, reported as an indentation error
+        //      further down (the comment was taken for the root scalar)
+        if m.err.is_some() && root_anchor_then_comment(&lines_of(text)) {
+            return Some("root-anchor-then-comment");
+        }
+        // (7b) the root block scalar finding below, surfacing as an error
+        if m.err.is_some() && root_block_scalar_shape(&lines_of(text)) {
+            return Some("root-block-scalar-reread");
+        }
+        // (6b) the literal-block finding below, surfacing as an indentation error
+        if matches!(&m.err, Some(YamlError::InconsistentIndentation { .. })) && literal_hash_first_shape(&lines_of(text)) {
+            return Some("literal-hash-first-then-indented");
+        }
+        return None;
+    }
+    if route != "walk" {
+        return None;
+    }
+    let lines = lines_of(text);
+    // (7) document-root block scalar without `---`, or `--- &anchor |`: its content is
+    //     loaded a second time as a further document (later documents shift, so the
+    //     mismatch is a document count or a document root)
+    if (m.kind == "doc-count" || m.segs.is_empty()) && root_block_scalar_shape(&lines) {
+        return Some("root-block-scalar-reread");
+    }
+    // (8) an empty node at the end of a text whose length is a multiple of 64
+    if m.kind == "null" && m.actual.contains("invalid cursor position") && text.len() % 64 == 0 {
+        let t: &[u8] = {
+            let mut e = text.len();
+            while e > 0 && matches!(text[e - 1], b' ' | b'\t' | b'\n' | b'\r') {
+                e -= 1;
+            }
+            &text[..e]
+        };
+        if matches!(t.last(), Some(b':' | b'-')) || t.ends_with(b"---") {
+            return Some("empty-node-at-eof-len64");
+        }
+    }
+    // (6) literal block scalar: first content line starts with `#`, a later line is more
+    //     indented, then a line returns to the block's indentation: spurious extra entries
+    if literal_hash_first_shape(&lines) {
+        return Some("literal-hash-first-then-indented");
+    }
+    // (1) empty mapping value, next content line at column 0 starts with a quoted key, and
+    //     the library answered with that key's text as a *quoted* string value
+    if m.kind == "null" {
+        if let (Some((false, got)), Some(Seg::Key(_))) = (&m.actual_str, m.segs.last()) {
+            let root_has_key = matches!(stream.get(m.doc), Some(Y::Map(r)) if r.iter().any(|e| e.0 == *got));
+            let col0_quoted = lines.iter().any(|l| matches!(l.first(), Some(b'"' | b'\'')));
+            if root_has_key && col0_quoted {
+                return Some("empty-value-then-col0-quoted-key");
+            }
+        }
+    }
+    // (5) plain scalar starting on the line after `-` / `key: &anchor`, with a continuation
+    //     line not deeper than its first line: the library's string is the model's string
+    //     cut at a fold
+    if m.kind == "str-content" {
+        if let (Some((true, got)), Some(exp)) = (&m.actual_str, &m.expected_str) {
+            let cut = exp.starts_with(got.as_str()) && exp[got.len()..].starts_with(' ');
+            let ind = |l: &[u8]| l.iter().take_while(|&&b| b == b' ').count();
+            // content lines only (blank lines and comment lines between them do not matter)
+            let content: Vec<&[u8]> = lines.iter().copied().filter(|l| !matches!(trim_ws(l).first(), None | Some(b'#'))).collect();
+            let first_word = got.split(' ').next().unwrap_or("").as_bytes();
+            let shape = content.windows(2).any(|w| {
+                // strip a trailing comment
+                let mut l1 = trim_ws(w[0]);
+                if let Some(p) = l1.windows(2).position(|x| matches!(x[0], b' ' | b'\t') && x[1] == b'#') {
+                    l1 = &l1[..p];
+                }
+                while matches!(l1.last(), Some(b' ' | b'\t')) {
+                    l1 = &l1[..l1.len() - 1];
+                }
+                let last_tok = l1.rsplit(|&b| b == b' ' || b == b'\t').next().unwrap_or(b"");
+                let opens = last_tok == b"-" || last_tok.ends_with(b":") || (last_tok.first() == Some(&b'&') && last_tok.len() > 1);
+                opens && ind(w[1]) > ind(w[0]) && w[1][ind(w[1])..].starts_with(first_word)
+            });
+            if cut && shape {
+                return Some("nextline-plain-continuation-not-deeper");
+            }
+        }
+    }
+    // (2) document-level anchor followed by a comment: the comment text comes back as a
+    //     plain scalar where the anchored root node was expected
+    if m.segs.is_empty() {
+        if let Some((true, got)) = &m.actual_str {
+            if got.starts_with('#') {
+                if root_anchor_then_comment(&lines) {
+                    return Some("root-anchor-then-comment");
+                }
+            }
+        }
+    }
+    None
+}
+
+/// some document's root node is a block scalar written without `---` or with an anchor
+fn root_block_scalar_shape(lines: &[&[u8]]) -> bool {
+    let content = |l: &&[u8]| !matches!(trim_ws(l).first(), None | Some(b'#'));
+    let mut doc_first = true; // the next content line is the first of its document
+    for l in lines.iter() {
+        if !content(l) {
+            continue;
+        }
+        let (marker, rest) = match l.strip_prefix(b"---") {
+            Some(r) if matches!(r.first(), None | Some(b' ' | b'\t')) => (true, trim_ws(r)),
+            _ => (false, *l),
+        };
+        if marker || doc_first {
+            let (anchored, node) = if rest.first() == Some(&b'&') {
+                let e = rest.iter().position(|&b| b == b' ' || b == b'\t').unwrap_or(rest.len());
+                (true, trim_ws(&rest[e..]))
+            } else {
+                (false, rest)
+            };
+            if matches!(node.first(), Some(b'|' | b'>')) && (marker || l.first() != Some(&b' ')) && (!marker || anchored) {
+                return true;
+            }
+        }
+        doc_first = marker && rest.is_empty();
+    }
+    false
+}
+
+fn literal_hash_first_shape(lines: &[&[u8]]) -> bool {
+    let ind = |l: &[u8]| l.iter().take_while(|&&b| b == b' ').count();
+    for (i, l) in lines.iter().enumerate() {
+        // header: `|` + optional chomping, optional comment, at the end of the line
+        let h = match l.iter().rposition(|&b| b == b'|') {
+            Some(p) => p,
+            None => continue,
+        };
+        let rest = &l[h + 1..];
+        let rest = if matches!(rest.first(), Some(b'-' | b'+')) { &rest[1..] } else { rest };
+        if !matches!(trim_ws(rest).first(), None | Some(b'#')) || (!rest.is_empty() && trim_ws(rest).len() == rest.len() && !rest.is_empty()) {
+            continue;
+        }
+        let mut j = i + 1;
+        while j < lines.len() && lines[j].is_empty() {
+            j += 1;
+        }
+        if j >= lines.len() {
+            continue;
+        }
+        let n = ind(lines[j]);
+        if n == 0 || lines[j].get(n) != Some(&b'#') {
+            continue;
+        }
+        let mut deeper = false;
+        for k in j + 1..lines.len() {
+            let lk = lines[k];
+            if lk.is_empty() {
+                continue;
+            }
+            let d = ind(lk);
+            if d < n {
+                break;
+            }
+            if d > n {
+                deeper = true;
+            }
+        }
+        if deeper {
+            return true;
+        }
+    }
+    false
+}
+
+/// some line is `[--- ]&name <ws> # ...`
+fn root_anchor_then_comment(lines: &[&[u8]]) -> bool {
+    lines.iter().any(|l| {
+        let l = l.strip_prefix(b"---").map(|r| trim_ws(r)).unwrap_or(l);
+        if l.first() != Some(&b'&') {
+            return false;
+        }
+        let name_end = l.iter().position(|&b| b == b' ' || b == b'\t').unwrap_or(l.len());
+        trim_ws(&l[name_end..]).first() == Some(&b'#')
+    })
+}
+
+/// Is the quote byte at `q` the *closing* quote of a quoted scalar on its line? Decided by
+/// scanning the line from its start with the two quoting rules (`''` / `\"` escapes);
+/// good enough for the generated presentation space (quotes inside plain scalars are not
+/// followed by tabs there).
+fn closes_quoted_scalar(text: &[u8], q: usize) -> bool {
+    let ls = text[..q].iter().rposition(|&b| b == b'\n' || b == b'\r').map(|p| p + 1).unwrap_or(0);
+    let mut i = ls;
+    let mut open: Option<u8> = None;
+    while i <= q {
+        let c = text[i];
+        match open {
+            None => {
+                if (c == b'"' || c == b'\'') && (i == ls || matches!(text[i - 1], b' ' | b'\t' | b'[' | b'{' | b',' | b':')) {
+                    open = Some(c);
+                }
+            }
+            Some(b'"') => {
+                if c == b'\\' {
+                    i += 1;
+                } else if c == b'"' {
+                    if i == q {
+                        return true;
+                    }
+                    open = None;
+                }
+            }
+            Some(_) => {
+                if c == b'\'' {
+                    if text.get(i + 1) == Some(&b'\'') {
+                        i += 1;
+                    } else {
+                        if i == q {
+                            return true;
+                        }
+                        open = None;
+                    }
+                }
+            }
+        }
+        i += 1;
+    }
+    false
+}
+
+pub fn trim_ws(b: &[u8]) -> &[u8] {
+    let mut b = b;
+    while let Some((&c, r)) = b.split_first() {
+        if c == b' ' || c == b'\t' {
+            b = r;
+        } else {
+            break;
+        }
+    }
+    b
+}
+
+pub fn classify(stream: &[Y], r: &gy::RenderedYaml, st: &mut Stats) {
+    let s = &r.stats;
+    let nt = s.collection_styles() >= 2 && s.scalar_styles() >= 3 && s.has_comment();
+    if nt {
+        st.nontrivial(hash_bytes(&r.text));
+    }
+    st.class_if(nt, "nontrivial");
+    st.class(&format!("break-{}", s.line_break));
+    st.class_if(stream.len() > 1, "multi-document");
+    for (name, n) in s.iter() {
+        st.class_if(n > 0, name);
+    }
+    st.class_if(s.anchors > 0 && s.aliases > 0, "anchor+alias");
+    let depth = stream.iter().map(|d| d.depth()).max().unwrap_or(0);
+    st.class_if(depth >= 20, "depth>=20");
+    st.class_if(r.spans.iter().any(|sp| sp.style == YStyle::Alias && sp.value.is_container()), "alias-to-collection");
+    st.class_if(r.spans.iter().any(|sp| sp.role == YRole::Key && sp.style != YStyle::Plain), "quoted-key");
+    st.class_if(r.text.len() >= 1024, "text>=1KiB");
+    st.size(r.text.len());
+    let cls = if s.aliases > 0 { "alias" } else if s.literal + s.folded > 0 { "block-scalar" } else if s.flow_maps + s.flow_seqs > 0 { "flow" } else { "block" };
+    st.sample(cls, || json!({"yaml": show_bytes(&r.text), "model": stream.iter().map(gy::to_typed_json).collect::<Vec<_>>()}));
+}
+
+pub fn describe(stream: &[Y], r: &gy::RenderedYaml) -> Value {
+    json!({"yaml_hex": hex(&r.text), "yaml": String::from_utf8_lossy(&r.text), "model": stream.iter().map(gy::to_typed_json).collect::<Vec<_>>()})
+}
+
+pub fn opts_for(cx: &Ctx) -> YOpts {
+    let mut o = YOpts::full();
+    // open known findings are excluded by construction in the main search (DESIGN §2.6);
+    // `open-finding-shapes` keeps generating them
+    o.avoid = gy::YAvoid { empty_value_before_col0_quoted_key: true, comment_after_root_anchor: true, compact_collection_return_after_deeper: false, tab_after_dash_before_flow_or_quoted: false, opener_after_space_in_plain: false, quote_inside_flow_plain: true, block_scalar_on_compact_line: false, compact_quoted_key_space_colon: true, tab_after_closing_quote: true, nextline_plain_continuation_not_deeper: true, literal_hash_first_then_indented: true, root_block_scalar_reread: true, empty_node_at_eof_len64: true };
+    o.max_depth = if cx.tier == Tier::Quick { 40 } else { 100 };
+    o
+}
+
+pub fn gen_model(u: &mut Src, o: &YOpts) -> Vec<Y> {
+    // the spine depth is max_depth; ordinary trees stay shallow
+    let mut shallow = o.clone();
+    shallow.max_depth = 8;
+    let spine = o.deep_spine_16 > 0 && (u.below(16) as u32) >= 16 - o.deep_spine_16.min(16);
+    if spine {
+        let mut d = o.clone();
+        d.deep_spine_16 = 16;
+        d.max_nodes = 12;
+        d.max_docs = 2;
+        gy::gen_stream(u, &d)
+    } else {
+        shallow.deep_spine_16 = 0;
+        gy::gen_stream(u, &shallow)
+    }
+}
+
+fn run_case(u: &mut Src, st: &mut Stats, o: &YOpts) -> Result<(), Fail> {
+    let stream = gen_model(u, o);
+    let r = gy::render(&stream, u, o);
+    classify(&stream, &r, st);
+    st.describe(|| describe(&stream, &r));
+    match check_stream(&stream, &r.text, st) {
+        Ok(()) => Ok(()),
+        Err((route, m)) => Err(Fail::new(
+            signature(&route, &m, &r.text, &stream, Some(&r)),
+            json!({"route": route, "kind": m.kind, "path": m.path, "expected": m.expected, "actual": m.actual, "yaml": show_bytes(&r.text)}),
+        )),
+    }
+}
+
+/// Structured replay: `{"input": {"yaml": "...", "model": [typed json per document]}}`
+fn replay_input(v: &Value) -> Option<Fail> {
+    let inp = &v["input"];
+    let text: Vec<u8> = match (inp["yaml"].as_str(), inp["yaml_hex"].as_str()) {
+        (_, Some(h)) => unhex(h),
+        (Some(s), None) => s.as_bytes().to_vec(),
+        _ => return Some(Fail::new("C14/replay/malformed", json!({"why": "no yaml"}))),
+    };
+    let model: Option<Vec<Y>> = inp["model"].as_array().and_then(|a| a.iter().map(gy::from_typed_json).collect());
+    let model = match model {
+        Some(m) => m,
+        None => return Some(Fail::new("C14/replay/malformed", json!({"why": "no model"}))),
+    };
+    let mut st = Stats::default();
+    match catch(|| check_stream(&model, &text, &mut st)) {
+        Ok(Ok(())) => None,
+        Ok(Err((route, m))) => Some(Fail::new(
+            signature(&route, &m, &text, &model, None),
+            json!({"route": route, "kind": m.kind, "path": m.path, "expected": m.expected, "actual": m.actual, "yaml": show_bytes(&text)}),
+        )),
+        Err((loc, msg)) => Some(Fail::new(format!("panic@{}", panic_sig(&loc)), json!({"panic": msg, "location": loc}))),
+    }
+}
+
+static DUMP_SEQ: AtomicUsize = AtomicUsize::new(0);
+
+/// Development aid: `VH_YAML_PROBE=<file> vh run C14 quick` prints what the library makes of a file.
+fn probe(path: &str) {
+    let text = std::fs::read(path).expect("probe file");
+    println!("text: {}", show_bytes(&text));
+    match YamlIndex::build(&text) {
+        Ok(ix) => println!("to_json_document: {}", ix.root(&text).to_json_document()),
+        Err(e) => println!("build error: {}", e),
+    }
+    match succinctly::yaml::validate::validate(&text) {
+        Ok(()) => println!("validate: Ok"),
+        Err(e) => println!("validate: Err {}", e),
+    }
+}
 
 pub fn run(cx: &mut Ctx) {
-    cx.infra("check not built");
+    if let Ok(p) = std::env::var("VH_YAML_PROBE") {
+        for f in p.split(',') {
+            probe(f);
+        }
+        return;
+    }
+    cx.assume("the model is the oracle: documents are rendered from a tree, never parsed by harness code");
+    cx.assume("G-yaml only emits presentations whose YAML 1.2.2 reading is unambiguous and that the repository documents as supported (gen/yaml.rs lists every exclusion with its citation); the generator was cross-checked with PyYAML 6.0.3 during development");
+    cx.assume("O-jsonval (harness JSON parser) reads the library's JSON output");
+    for (name, v) in cx.replays.clone() {
+        if v["kind"] == "input" {
+            let r = replay_input(&v);
+            cx.replay_outcome(&name, r);
+        }
+    }
+    let o = opts_for(cx);
+    cx.check(
+        "load-vs-model",
+        RULE,
+        Budget { quick: 20_000, thorough: 600_000, max_len: 3000 },
+        |u, st| run_case(u, st, &o),
+    );
+    for cl in [
+        "nontrivial", "break-CRLF", "break-CR", "multi-document", "anchor+alias", "alias-to-collection", "chomp_strip", "chomp_clip", "chomp_keep",
+        "literal", "folded", "quoted_ambiguous", "block_maps", "block_seqs", "flow_maps", "flow_seqs", "compact_seq_entries",
+        "seq_at_parent_indent", "trailing_comments", "comment_lines", "blank_lines", "plain", "single", "double", "null_empty",
+        "multiline_plain", "multiline_quoted", "multiline_flow", "depth>=20", "quoted-key", "tabs_separation", "no_final_newline",
+    ] {
+        cx.require_class("load-vs-model", cl, 20);
+    }
+    let mut plain = [YOpts::plain_data(), YOpts::block_only(), YOpts::flow_only()];
+    for p in plain.iter_mut() {
+        p.avoid = o.avoid;
+    }
+    cx.check(
+        "load-vs-model-plain",
+        "G-yaml with YOpts::plain_data / block_only / flow_only (no YAML-only devices): same oracle",
+        Budget { quick: 6_000, thorough: 200_000, max_len: 2000 },
+        |u, st| {
+            let o = &plain[u.below(3)];
+            run_case(u, st, o)
+        },
+    );
+
+    // the shapes of the open findings, not avoided: every failure here must carry a listed
+    // signature (the engine excludes and counts those); any other failure is a violation
+    let mut open = o.clone();
+    open.avoid = gy::YAvoid::none();
+    cx.check(
+        "open-finding-shapes",
+        "G-yaml with no known-finding shape avoided; failures with a listed signature are counted, others are violations",
+        Budget { quick: 3_000, thorough: 60_000, max_len: 3000 },
+        |u, st| run_case(u, st, &open),
+    );
+
+    if let Ok(dir) = std::env::var("VH_YAML_DUMP") {
+        let _ = std::fs::create_dir_all(&dir);
+        let n: u64 = std::env::var("VH_YAML_DUMP_N").ok().and_then(|s| s.parse().ok()).unwrap_or(5000);
+        let mode_full = std::env::var("VH_YAML_DUMP_MODE").map(|m| m == "full").unwrap_or(false);
+        let mut o = if mode_full { YOpts::full() } else { YOpts::py_compat() };
+        o.max_depth = 40;
+        o.flow_comments = true; // valid YAML, checked by PyYAML although not in the default space
+        DUMP_SEQ.store(0, Ordering::SeqCst);
+        cx.check(
+            "generator-selfcheck",
+            "dump of generated streams for the PyYAML cross-check (development aid)",
+            Budget { quick: n, thorough: n, max_len: 3000 },
+            |u, _st| {
+                let stream = gen_model(u, &o);
+                let r = gy::render(&stream, u, &o);
+                let i = DUMP_SEQ.fetch_add(1, Ordering::SeqCst);
+                let _ = std::fs::write(format!("{}/{}.yaml", dir, i), &r.text);
+                let model = json!({"docs": stream.iter().map(gy::to_typed_json).collect::<Vec<_>>(), "stats": r.stats.iter().into_iter().filter(|x| x.1 > 0).map(|x| x.0).collect::<Vec<_>>(), "break": r.stats.line_break});
+                let _ = std::fs::write(format!("{}/{}.json", dir, i), model.to_string());
+                Ok(())
+            },
+        );
+    }
 }
